@@ -514,7 +514,11 @@ Proof.
     destruct (chardata_spec_ok T TOK ty TY) as (spec & -> & SP).
     change (mbind (lift (Val spec)) ?k) with (k spec). cbv beta.
     destruct spec as [cs|].
-    + eapply tot2_bind1; [apply tot1_parse_character_data; [exact EB|exact SP]|]. intros value _.
+    + destruct (content_mode_ok T TOK ty TY) as (mode & ->).
+      change (mbind (lift (Val mode)) ?k) with (k mode). cbv beta.
+      destruct ((mode =? MCharacters)%N && negb match content with [] => true | _ :: _ => false end).
+      { eapply tot2_bind1; [apply tot1_optional_error|]. intros _ _. apply LOOP. exact PE. }
+      eapply tot2_bind1; [apply tot1_parse_character_data; [exact EB|exact SP]|]. intros value _.
       destruct (is_ref_ok T TOK ty TY) as (isr & ->).
       change (mbind (lift (Val isr)) ?k) with (k isr). cbv beta.
       eapply tot2_bind1 with (Q1 := fun _ => True).
